@@ -31,6 +31,18 @@ CHECKS = {
          "Requests of 11 kinds (anonymous; valid V4 header/presigned, V2 header/presigned; bad signature; unknown key; duplicated / malformed Authorization) built from SDK-captured requests for all reachable operations or for a custom route, against services with provider none/keys/denying, access hook none/allow/deny/deny-by-op/deny-in-typed-hook/require-credentials, route none/matching/overriding/non-matching, host parser on/off: the recorded sequence provider-lookup -> access.check -> typed hook -> backend (or route.check_access -> route.call) with the verified identity must equal the model's; denials are the response's error and end the log; invalid requests produce no hook/backend events; without provider a presented signature is refused.",
          "Trusted: reference signers for validity by construction, the harness' recording hooks generated from the S3/S3Access traits. V4 POST forms are covered by C10. Without provider, anonymous behaviour is not asserted.",
          "DESIGN.md §4 C07"),
+ "C08": ("proptest-driven fault injection over chunk-signed uploads built by a reference aws-chunked encoder (validated on the AWS example); exhaustive truncation at every byte offset of a fixed upload; oracle: delivered bytes are a whole-verified-chunk prefix and the body ends Ok iff complete",
+         "Payloads cut into 0-8 chunks (thorough 0-40, up to 64 KiB) are sent as signed PutObject/UploadPart through S3Service to a recording backend under random transport framings with one fault: bit flip in data / size field / signature, swap, duplicate, delete, re-sign with other key/date/previous signature, splice from another request, truncation, garbage or a chained chunk after the final chunk, wrong declared decoded length, bad final-chunk signature. Bytes read by the backend must be a prefix made of whole chunks before the fault, the body must end with an error for every fault, and the content length shown to the backend must be the declared decoded length. A 3-chunk upload is truncated at every byte offset exhaustively.",
+         "Trusted: reference encoder/signer (documentation example: seed + 3 chunk signatures + total length). Bytes after the signed zero-length chunk are only checked for 'no unverified byte delivered'.",
+         "DESIGN.md §4 C08"),
+ "C09": ("metamorphic relation over harness-owned frame schedules (proptest-driven random partitions with forced token splits and Pending interleavings; exhaustive single split points, pairs in thorough): outcome == single-frame outcome",
+         "Plain streamed PutObject, buffered XML bodies captured from aws-sdk-s3, chunk-signed uploads and multipart/form-data POST forms are delivered through a harness-owned http_body::Body under generated schedules (1-byte frames, empty frames, splits inside CRLF / boundary / part-header / chunk-size / chunk-signature / XML-tag tokens, 0-3 Pending returns before each frame); status, error code, decoded input, bytes delivered to the backend, identity and response body must equal the single-frame never-pending run. Every single split point of 16 small bodies is enumerated (thorough: pairs).",
+         "Trusted: the harness FrameBody (wakes itself on Pending). Faulty bodies under framing are covered by C08.",
+         "DESIGN.md §4 C09"),
+ "C10": ("proptest-driven search over forms from a reference multipart builder and POST-policy evaluator (signature validated on the AWS POST example); differential accept/refuse oracle and exact-storage oracle at a recording backend",
+         "Generated browser-style POST forms (field order and name case, x-amz-meta-*, header-equivalent fields, unknown fields, fields after the file, boundaries of 1-70 RFC 2046 characters, file contents incl. CR/LF runs, proper prefixes of the delimiter, binary, part look-alikes) carry a policy that holds by construction plus one deviation (expired, violated eq / starts-with / content-length-range / bucket condition, tampered policy / signature / credential / date / algorithm, other or unknown key): accepted iff the reference says signature valid AND policy satisfied; an accepted upload is exactly one PutObject with the form's bucket, key, metadata, header-equivalent fields, the signer's identity and the file bytes.",
+         "Trusted: reference form encoder, policy signer (documentation example) and evaluator. Duplicated fields, ${filename}, fields after the file are don't-care; only stated conditions are evaluated.",
+         "DESIGN.md §4 C10"),
  "C11": ("proptest-driven search; differential verdict oracle against a reference SigV2 signer/verifier written from the AWS V2 document (validated on six documentation examples); single-component mutations; expiry relative to the real clock",
          "Requests signed by the reference V2 signer (header and presigned forms; sub-resources and response-* overrides, other query keys, x-amz-* headers incl. repeated names and edge whitespace, Date vs x-amz-date, Content-MD5/Type, path-style and virtual-hosted-style with a host parser), honest or with one mutation (method, MD5, type, date/expires, amz header value/added/removed, path, sub-resource value/added/removed, signature, access key): the adapter authenticates iff the reference verifier accepts and (presigned) now <= Expires; refused requests reach no backend.",
          "Trusted: reference V2 signer (documentation examples), system clock with a 30 s band around Expires. Sub-resources newer than the V2 document are not asserted.",
